@@ -89,6 +89,9 @@ func goroutineEnds(pc *printCase, lines [][]byte) ([]int, []int) {
 }
 
 func checkCutCase(res *Result, pc *printCase, rng *rand.Rand, idx int, stride int) int {
+	if res.saturated("C10") {
+		return 0
+	}
 	p := &printer{lx: newLexicon(rng, nil), created: map[string]string{}}
 	lines := make([][]byte, len(pc.Lines))
 	var data []byte
